@@ -196,7 +196,7 @@ Proof. vm_compute. split; reflexivity. Qed.
 Definition ex_panic_script : script :=
   {| s_bud := 2;
      s_m0 := {| m_stack := [ex_elem (Modify 5); ex_elem Pass];
-                m_handler := {| h_stages := 1; h_extra := XPanic 0 12; h_start := []; h_msg := []; h_end := []; h_task := [] |} |};
+                m_handler := {| h_stages := 1; h_extra := XPanic 0 12 0; h_start := []; h_msg := []; h_end := []; h_task := [] |} |};
      s_m1 := {| m_stack := []; m_handler := {| h_stages := 0; h_extra := XNone; h_start := []; h_msg := []; h_end := []; h_task := [] |} |};
      s_inj := [(3, EvDeliver 0 7); (4, EvDeliver 0 7)] |}.
 
